@@ -11,7 +11,8 @@ taken when an object was created or last legitimately modified - no srctools ari
 Sub-checks (one clause group each, all driven by the same history interpreter):
 
 * ``range``    every live Angle/FrozenAngle reports 0 <= pitch, yaw, roll < 360 through every accessor
-* ``frozen``   no command changes the observable value of a live FrozenVec/FrozenAngle/FrozenMatrix
+* ``frozen``   no command changes the observable value of a live FrozenVec/FrozenAngle/FrozenMatrix (for a FrozenMatrix the
+               history has converted: also what to_angle() reports, compared with the first conversion)
 * ``copies``   copy()/copy.copy/deepcopy/pickle/freeze()/thaw()/copy-constructors give an equal, distinct object; a later
                command changes nothing but its own target (independence)
 * ``text``     str() of every live Vec/Angle: plain decimals, <= 6 places, no exponent, no '-0', parses back within 5e-7
@@ -35,7 +36,8 @@ RULE = (
     'Hypothesis generates command histories (2-6 constructor commands, then 3 to 25 (quick) / 40 (thorough) arbitrary '
     'commands out of 20 command types: constructor forms, setters, Vec/Angle arithmetic incl. in-place and reflected forms, '
     '@ / @= for every operand mix, transform() blocks, localise, to_angle, from_basis, axis_angle, copy/deepcopy/pickle/'
-    'freeze/thaw, transpose/inverse) over a pool of live objects; numbers come from arbitrary finite floats, exact multiples '
+    'freeze/thaw, transpose/inverse; Angle scaling also by the factor that takes a component of the target onto 360*k; '
+    'to_angle() optionally followed by in-place edits of the returned Angle and a renewed to_angle() of the same matrix) over a pool of live objects; numbers come from arbitrary finite floats, exact multiples '
     'of 360, +-1e-7..1e-17, neighbours of 360, decimal-rounding boundaries and components of earlier objects (fed back, '
     'optionally negated). The invariant is checked after every command. non-trivial = the history executed >= 3 commands '
     'including a rotation (@, @=, transform, localise, to_angle, from_basis) while an earlier-created frozen object was '
@@ -84,10 +86,13 @@ class Skip(Exception):
 
 
 class Ent:
-    __slots__ = ('obj', 'kind', 'snap', 'alive', 'born')
+    __slots__ = ('obj', 'kind', 'snap', 'alive', 'born', 'ang_seen')
 
     def __init__(self, obj, kind, born):
         self.obj, self.kind, self.born, self.alive = obj, kind, born, True
+        # what to_angle() of this matrix reported when the HISTORY first asked for it (None: never converted so far).  The
+        # harness never converts a matrix on its own before the history does: the first conversion belongs to the history.
+        self.ang_seen = None
         self.snap = snapshot(obj, kind)
 
 
@@ -301,11 +306,29 @@ class Machine:
         self.add(o, clause_ctx=f'{cls_name} {form}')
         return None
 
-    def c_to_angle(self, mk, i):
+    def c_to_angle(self, mk, i, edits=()):
+        """matrix -> Angle; then (use / change the RESULT in place / use the matrix again) x edits: the returned Angle is the
+        caller's object, editing it is not an operation on the matrix."""
         m = self.pick(i, (mk,))
         self.mark_rotation()
         self.ctx.label('to_angle:' + m.kind)
-        self.add(m.obj.to_angle(), clause_ctx='to_angle')
+        ang = m.obj.to_angle()
+        if m.ang_seen is None:
+            m.ang_seen = [repr(c + 0.0) for c in comps(ang, 'Angle')]
+        e = self.add(ang, clause_ctx='to_angle')
+        for mut, comp, n, j in edits:
+            if e is None or e.kind != 'Angle' or e is m:
+                break
+            try:
+                name = self._mutate(e, mut, comp, n, j)
+            except Skip as sk:
+                self.ctx.label('skip_round:' + str(sk))
+                break
+            self.ctx.label(f'to_angle_result_edited:{m.kind}', f'to_angle_result_edited:{name}')
+            if not all(math.isfinite(c) for c in comps(e.obj, e.kind)):
+                break       # invariant() retires it
+            self.add(m.obj.to_angle(), clause_ctx='to_angle again')
+        return e
 
     def c_vec_to_angle(self, vk, i, n):
         v = self.pick(i, (vk,), small=True)
@@ -400,7 +423,18 @@ class Machine:
 
     def c_amul(self, ak, i, n, form):
         e = self.pick(i, (ak,))
-        x = self.num(n)
+        if isinstance(n, list) and n and n[0] == 'm':
+            # ['m', component, k, as_int]: the factor that takes the chosen component of THIS angle onto the multiple 360*k
+            # (exactly when the quotient is exact - 180*2, 90*4, 45*8, 120*3 -, otherwise to within an ulp of it)
+            c = comps(e.obj, e.kind)[n[1] % 3]
+            x = float(n[2]) if c == 0.0 else 360.0 * n[2] / c
+            if not abs(x) <= BIG:       # a denormal component: the quotient overflows
+                raise Skip('magnitude')
+            if n[3] and x == int(x):
+                x = int(x)
+            self.ctx.label('amul_to_multiple:' + ('exact' if c * x == 360.0 * n[2] and c != 0.0 else 'near'))
+        else:
+            x = self.num(n)
         self.ctx.label(f'amul:{e.kind}:{form}')
         if form == 'imul':
             res = operator.imul(e.obj, x)
@@ -725,6 +759,13 @@ class Machine:
                 ctx.check(now == e.snap, 'frozen_changed',
                           f'step {self.step} {cmd}: a {e.kind} created at step {e.born} changed\n before={e.snap}\n after ={now}',
                           kind=e.kind, op=cmd[0])
+                if e.ang_seen is not None and e.kind == 'FrozenMatrix':
+                    # derived observation: once the history has converted this frozen matrix, every later conversion
+                    # has to report the same angle (the cells above did not change, so neither may what is read from them)
+                    now = [repr(c + 0.0) for c in comps(e.obj.to_angle(), 'Angle')]
+                    ctx.check(now == e.ang_seen, 'frozen_changed',
+                              f'step {self.step} {cmd}: to_angle() of a FrozenMatrix created at step {e.born} (cells {e.snap[1:10]}) '
+                              f'changed\n first ={e.ang_seen}\n now   ={now}', kind=e.kind, op=cmd[0], view='to_angle')
             elif mode == 'copies' and e.kind in MUT_K:
                 now = snapshot(e.obj, e.kind)
                 ctx.check(now == e.snap, 'independent',
@@ -866,6 +907,11 @@ def literal():
     )
 
 
+def multiple_factor():
+    """Scale factors computed against the target angle: component * factor lands on (or within an ulp of) 360*k."""
+    return st.tuples(st.just('m'), st.integers(0, 2), st.sampled_from([1, 1, 1, 2, -1, 3, -2]), st.booleans()).map(list)
+
+
 def tiny_factor():
     """Scale factors that take an angle component (< 360) to within an ulp of zero, from either side."""
     return st.builds(lambda sg, m, e: sg * m * 10.0 ** -e, st.sampled_from([-1, 1, -1]), st.floats(1, 9), st.integers(14, 19))
@@ -943,10 +989,12 @@ def cmd_any(num):
         matmul(), matmul(), matmul(), matmul(), matmul(), matmul(), matmul(), matmul(),
         copy_(), copy_(), copy_(), copy_(), copy_(), copy_(),
         set_(), set_(),
-        st.tuples(st.just('amul'), ak, IDX, st.one_of(num, tiny_factor()), st.sampled_from(['mul', 'rmul', 'imul', 'imul'])),
-        st.tuples(st.just('amul'), ak, IDX, st.one_of(num, tiny_factor()), st.sampled_from(['mul', 'rmul', 'imul', 'imul'])),
-        st.tuples(st.just('to_angle'), mk, IDX),
-        st.tuples(st.just('to_angle'), mk, IDX),
+        st.tuples(st.just('amul'), ak, IDX, st.one_of(num, tiny_factor(), multiple_factor()),
+                  st.sampled_from(['mul', 'rmul', 'imul', 'imul'])),
+        st.tuples(st.just('amul'), ak, IDX, st.one_of(num, tiny_factor(), multiple_factor()),
+                  st.sampled_from(['mul', 'rmul', 'imul', 'imul'])),
+        st.tuples(st.just('to_angle'), mk, IDX, st.lists(st.tuples(SMALL, SMALL, num, IDX), max_size=2)),
+        st.tuples(st.just('to_angle'), mk, IDX, st.lists(st.tuples(SMALL, SMALL, num, IDX), max_size=2)),
         transform(), transform(),
         cycle(), cycle(), cycle(), cycle(),
         vop(), vop(),
@@ -1051,9 +1099,12 @@ _SHORT = tuple(f'ctor_short:{k}:{t}:{n}' for k in ANG_K for t in ('tuple', 'list
 SUBCHECKS = [
     Sub('range', exec_range, strategy=history_strategy, quick=8000, thorough=160000, quick_shards=8, floor=300,
         must_hit=_OPS + ('has_angle', 'num:fed_back', 'to_angle:Matrix', 'to_angle:FrozenMatrix', 'transform:Angle',
-                         'amul:Angle:imul', 'set:Angle', 'ang_from_basis:Angle', 'ang_from_basis:FrozenAngle') + _SHORT
+                         'amul:Angle:imul', 'amul:Angle:mul', 'amul:FrozenAngle:mul', 'amul:Angle:rmul', 'amul:FrozenAngle:rmul',
+                         'amul_to_multiple:exact', 'amul_to_multiple:near', 'set:Angle', 'ang_from_basis:Angle', 'ang_from_basis:FrozenAngle') + _SHORT
         + tuple(f'{f}:{l}@{r}' for f in ('matmul', 'imatmul') for l in ANG_K for r in ROT_K)),
-    Sub('frozen', exec_frozen, strategy=history_strategy, quick=8000, thorough=160000, quick_shards=8, floor=300, must_hit=_OPS + _MATMUL + _POKES),
+    Sub('frozen', exec_frozen, strategy=history_strategy, quick=8000, thorough=160000, quick_shards=8, floor=300,
+        must_hit=_OPS + _MATMUL + _POKES + ('to_angle_result_edited:FrozenMatrix', 'to_angle_result_edited:Matrix')
+        + tuple(f'to_angle_result_edited:{m}' for m in Machine.MUTATORS['Angle'])),
     Sub('copies', exec_copies, strategy=history_strategy, quick=8000, thorough=160000, quick_shards=8, floor=300, must_hit=_OPS + _COPIES + _CYCLES),
     Sub('text', exec_text, strategy=history_strategy_text, quick=5000, thorough=100000, quick_shards=8, floor=200,
         must_hit=_OPS + ('text:normal', 'text:big')),
